@@ -109,6 +109,8 @@ def fixed_args(c, salt=0):
     for k, (kind, width, d) in c.args.items():
         if kind == "u" and width > 1 and not a.get(k):
             a[k] = 1
+    if c.xfer == "ata":
+        harness._ata_clip(c, a, 2048)  # (a transfer in logical sectors needs the sector size: not a request the library refuses)
     return a
 
 
